@@ -258,7 +258,7 @@ theorem C04_placement (st : St) (imp : Imp) (m id : Nat) (h : selectBlock st imp
     obtain ⟨x, _, hx⟩ := hm
     split at hx
     · rename_i i s l e bl set hf
-      by_cases hok : lineOk bl l (some m) = true
+      by_cases hok : candOk imp bl l (some m) set = true
       · rw [if_pos hok] at hx
         simp at hx
         obtain ⟨_, rfl⟩ := hx
@@ -266,6 +266,9 @@ theorem C04_placement (st : St) (imp : Imp) (m id : Nat) (h : selectBlock st imp
         simp [blockId] at hb
         subst hb
         refine ⟨s, l, e, bl, set, hf, ?_⟩
+        unfold candOk at hok
+        rw [Bool.and_eq_true] at hok
+        have hok := hok.1
         unfold lineOk at hok
         simp at hok
         exact hok
